@@ -9,7 +9,7 @@ per-datagram working counters 0/1 and colliding frame indices.
 import asyncio
 import itertools
 
-from mc import core, ecparse, explore, stallguard, vloop
+from mc import core, ecparse, explore, seams, stallguard, vloop
 from mc.stallguard import Stall
 
 import ebpfcat.ethercat as ecmod
@@ -65,7 +65,6 @@ def execute(ch, workload):
     loop = vloop.VLoop()
     obs = dict(stall=None, frames=[], outcomes={}, errors=[], delivered=[],
                log=[])
-    saved_randint = ecmod.randint
     tp = Transport()
     tp.ch = ch
     guard = execute.guard
@@ -87,7 +86,21 @@ def execute(ch, workload):
             used = sorted(ec.wait_futures)
             c = ch.choose(1 + len(used), "index")
             return used[c - 1] if c else next(fresh)
-        ecmod.randint = randint
+
+        def randrange(start, stop=None, step=1):
+            # the same policy for any other way to draw an index
+            if stop is None:
+                start, stop = 0, start
+            used = [i for i in sorted(ec.wait_futures)
+                    if i in range(start, stop, step)]
+            c = ch.choose(1 + len(used), "index")
+            if c:
+                return used[c - 1]
+            v = next(fresh)
+            return v if v in range(start, stop, step) else start
+        owned = seams.own_random([ecmod], dict(randint=randint,
+                                               randrange=randrange))
+        owned.__enter__()
         saved_ef = ecmod.ensure_future
 
         def counting_ensure_future(coro):
@@ -197,7 +210,7 @@ def execute(ch, workload):
                     ctx_.get("message"))[:60] + " "
                     + type(ctx_.get("exception")).__name__)
         finally:
-            ecmod.randint = saved_randint
+            owned.__exit__(None, None, None)
             ecmod.ensure_future = saved_ef
             loop.shutdown()
     return obs
